@@ -537,13 +537,17 @@ FLOW = """[scheduler]
         inherit = OUTER
     [[m1, m2]]
         inherit = INNER
+    [[SIDE]]
     [[m3]]
-        inherit = OUTER
+        inherit = SIDE, OUTER
     [[LONE]]
     [[n1]]
         inherit = LONE
 """
-NEST = {'OUTER': ['m1', 'm2', 'm3'], 'INNER': ['m1', 'm2'], 'LONE': ['n1']}
+# (m3 has OUTER as its *second* parent: family membership follows every
+# parent, not only the first-parent tree)
+NEST = {'OUTER': ['m1', 'm2', 'm3'], 'INNER': ['m1', 'm2'], 'LONE': ['n1'],
+        'SIDE': ['m3']}
 
 
 def cfg_cases(ctx: Ctx):
